@@ -1185,3 +1185,19 @@ M("n75", "neutral", [], "Image.serialize: record building extracted into a metho
   (IM, '''            result["additional_variants"] = self.additional_variants
         data.append(result)''', '''            result["additional_variants"] = self.additional_variants
         return result'''))
+
+# ---- C14 round trip (abstract interpretation over segment strings) ----
+M("c14r1", "fire", ["C14"], "release-id parser splits from the left",
+  (CO, '''        short, version, release_type_extracted = release_id.rsplit("-", 2)''', '''        short, version, release_type_extracted = release_id.split("-", 2)'''))
+M("c14r2", "fire", ["C14"], "release-id parser: known type not removed before splitting",
+  (CO, '''            release_id = release_id[:-len(release_type)]
+''', '''            pass
+'''))
+M("c14r3", "fire", ["C14"], "release-id parser: base product prefix lost",
+  (CO, '''        result.update(_parse_release_id_part(base_product, prefix="bp_"))''', '''        result.update(_parse_release_id_part(base_product))'''))
+M("c14r4", "fire", ["C14"], "release-id parser: 'ga' shortcut taken for any id without a known type suffix position",
+  (CO, '''    if release_id.count("-") == 1:
+        # TODO: what if short contains '-'?''', '''    if release_id.count("-") <= 2:
+        # TODO: what if short contains '-'?'''))
+M("c14r5", "fire", ["C14"], "create_release_id: type and version swapped in the identifier",
+  (CO, '''        result = "%s-%s-%s" % (short, version, type)''', '''        result = "%s-%s-%s" % (short, type, version)'''))
